@@ -377,6 +377,45 @@ example : paintPath (1, 0, 0, 1, 0, 0) (argsOf cexG true true false) [.l (1, 1),
        (.line, [(2, 2), (2, 2)], true, true)] := by
   refine ⟨by decide +kernel, by decide +kernel⟩
 
+/-! ## Round 6: pages are isolated (one interpreter, many pages) -/
+
+/-- "Paths ended without painting yield nothing and leave no residue" across pages: when several pages are
+run through ONE interpreter (as `extract_pages` does), whatever state the earlier pages leave behind - a
+path under construction that was never painted (`re W` without `n`, `m l` at the end of the content),
+unmatched `q`, colours, line width, dash, CTM, colour spaces, operands on the stack - the shapes of page k
+are a function of page k's set-up and content ONLY.  `init_state`'s list of overwritten attributes is
+regenerated from pdfinterp.py: dropping one of them breaks this proof. -/
+theorem C16_page_isolation (prev : IState) (pages : List PageIn) :
+    runPagesFrom prev pages = pages.map (fun p => runPage p.rotate p.mb p.res p.toks) :=
+  runPagesFrom_eq prev pages
+
+/-- Every page starts from the initial graphics state and an empty path, whatever came before. -/
+theorem C16_page_starts_fresh (prev : IState) (ctm : Matrix) (res : List (String × CsSpec)) :
+    (initStateOn prev ctm res).curpath = [] ∧ (initStateOn prev ctm res).gstack = [] ∧
+    (initStateOn prev ctm res).argstack = [] ∧ (initStateOn prev ctm res).ctm = ctm ∧
+    (initStateOn prev ctm res).gs.linewidth = 0 ∧ (initStateOn prev ctm res).gs.dash = none ∧
+    (initStateOn prev ctm res).gs.scolor = none ∧ (initStateOn prev ctm res).gs.ncolor = none ∧
+    (initStateOn prev ctm res).out = [] := by
+  rw [initStateOn_eq]
+  exact ⟨rfl, rfl, rfl, rfl, rfl, rfl, rfl, rfl, rfl⟩
+
+/-- Non-vacuity: page 1 ends with `1 0 0 RG 3 w q 100 100 50 60 re W` (dangling clip path, unmatched `q`),
+page 2 strokes one line: page 2 has exactly its own line, with the default width and no colour. -/
+example :
+    (runPagesFrom (initState (1, 0, 0, 1, 0, 0) [])
+      [⟨0, (0, 0, 400, 400), [],
+         [.operand (.num 1), .operand (.num 0), .operand (.num 0), .op .RG, .operand (.num 3), .op .w, .op .q,
+          .operand (.num 100), .operand (.num 100), .operand (.num 50), .operand (.num 60), .op .re, .op .W]⟩,
+       ⟨0, (0, 0, 400, 400), [],
+         [.operand (.num 30), .operand (.num 30), .op .m, .operand (.num 60), .operand (.num 30), .op .l, .op .S]⟩]).map
+      (fun r => match r with
+        | .ok shapes => some shapes
+        | .error _ => none) =
+    [some [], some [{ kind := .line, pts := [(30, 30), (60, 30)], path := [.m (30, 30), .l (60, 30)],
+                      bbox := some (30, 30, 60, 30), linewidth := 0, stroke := true, fill := false,
+                      evenodd := false, scolor := none, ncolor := none, dash := none }]] := by
+  decide +kernel
+
 /-! ## Frame rules: clipping does not paint; painting touches nothing but the path and the output -/
 
 /-- `W` / `W*` (empty bodies in pdfinterp.py, checked by the translator) are no-ops of the interpreter:
